@@ -1,6 +1,6 @@
 SPECIFICATION Spec
 CONSTANTS
-  PosIds = {0, 2, 301}
+  PosIds = {0, 2, 100, 301}
   ClassSet = {"a", "amp", "lt", "gt", "quot", "apos", "sp", "cjk"}
   MaxChars = 2
 INVARIANTS Refines Dump
